@@ -771,6 +771,13 @@ def const_eval(node, env, lookup=None):
             else:
                 out += str(const_eval(v.value, env, lookup))
         return out
+    if isinstance(node, ast.Call) and dotted(node.func) == "re.compile" and \
+            len(node.args) == 1 and not node.keywords:
+        # a precompiled pattern kept as a module / class constant
+        import re as _re
+        pat = const_eval(node.args[0], env, lookup)
+        if isinstance(pat, str):
+            return _re.compile(pat)
     raise AnalysisError("constant folder: unsupported %s" % unparse(node)[:80])
 
 
